@@ -51,9 +51,9 @@ func independentAuth(cfg *scfg, active func(uint) bool, content, pw []byte) bool
 }
 
 type c02case struct {
-	content []byte
-	rightPw []byte
-	admin   bool
+	content    []byte
+	rightPw    []byte
+	admin      bool
 	wellformed bool // produced by the harness's own formatter for a configured set
 }
 
@@ -69,7 +69,9 @@ func mutations(r *rng.R, cfg *scfg, thorough bool) []c02case {
 	salt := r.Bytes(set.saltLen())
 	ts := int64(1700000000 + r.Intn(100000000))
 	good := formatRecord(set, ts, salt, pw)
-	add := func(b []byte) { out = append(out, c02case{content: append([]byte(nil), b...), rightPw: pw, admin: r.Intn(4) == 0}) }
+	add := func(b []byte) {
+		out = append(out, c02case{content: append([]byte(nil), b...), rightPw: pw, admin: r.Intn(4) == 0})
+	}
 	// (iii) independent implementation of the schema: must authenticate
 	out = append(out, c02case{content: good, rightPw: pw, wellformed: true, admin: r.Bool()})
 	out = append(out, c02case{content: append(append([]byte(nil), good...), genAux(r, false)...), rightPw: pw, wellformed: true})
@@ -232,7 +234,16 @@ func suiteC02(c *ctx) {
 			if cs.admin {
 				ext = ".admin"
 			}
-			os.WriteFile(filepath.Join(base, user+ext), cs.content, 0600)
+			if ci%8 == 5 {
+				// the record is published through a symbolic link (a secret volume, a `current -> release-N`
+				// layout): for the schema it is the same record
+				data := base + "-data"
+				os.MkdirAll(data, 0700)
+				os.WriteFile(filepath.Join(data, "victim-record"), cs.content, 0600)
+				os.Symlink(filepath.Join("..", filepath.Base(data), "victim-record"), filepath.Join(base, user+ext))
+			} else {
+				os.WriteFile(filepath.Join(base, user+ext), cs.content, 0600)
+			}
 			h := &hist{c: c, cfg: cfg, base: base, d: d, shadow: map[string]*srec{}, users: []string{user, "admin0"}, noSpec: true}
 			active := func(id uint) bool { return d.Params[id] != nil }
 			p, hung := withTimeout(func() {
@@ -298,6 +309,7 @@ func suiteC02(c *ctx) {
 				c.emit("law.C02.no_hang "+xb(cs.content[:min(len(cs.content), 400)]), "f")
 			}
 			os.RemoveAll(base)
+			os.RemoveAll(base + "-data")
 		}
 	}
 }
